@@ -150,6 +150,14 @@ func (rangeEngine) Gen(rng *rand.Rand, tier string, i int) any {
 	seen := map[string]bool{}
 	for len(c.Clients) < n+3 {
 		m := genMac(rng, len(c.Clients))
+		if len(c.Clients) > 0 && rng.Intn(6) == 0 {
+			// a different client whose hardware address is an earlier client's followed by zero bytes
+			// (the packet's chaddr field is zero-padded: only hlen tells them apart)
+			prev, _ := hex.DecodeString(c.Clients[rng.Intn(len(c.Clients))].Mac)
+			if len(prev) < 16 {
+				m = append(append([]byte{}, prev...), make([]byte, 1+rng.Intn(min(2, 16-len(prev))))...)
+			}
+		}
 		key := fmt.Sprintf("%d:%x", len(m), m)
 		if seen[key] {
 			continue
@@ -251,6 +259,46 @@ func (rangeEngine) Run(ctx *fw.Ctx, cs any) {
 		if c.Restarts && i > 0 && r.rng.Intn(100) < 7 {
 			newEnd := r.end
 			newLease := r.leaseS
+			if r.rng.Intn(4) == 0 && len(r.m.Bind) > 0 {
+				// the operator shrinks or moves the range so that a stored lease falls outside it. Refusing to start
+				// is fine (the history then goes on with the old range); starting is fine too, as long as no address
+				// outside the configured range is offered from then on
+				lo, hi := r.m.End, r.m.Start
+				for _, ip := range r.m.Bind {
+					if ip < lo {
+						lo = ip
+					}
+					if ip > hi {
+						hi = ip
+					}
+				}
+				ns, ne := r.m.Start, r.end
+				if r.rng.Intn(2) == 0 && hi >= ns+2 {
+					ne = hi - 1
+				} else if lo+2 <= ne {
+					ns = lo + 1
+				} else {
+					ns, ne = 0, 0
+				}
+				if ne > ns {
+					h, err := r.setup(r.db, ns, ne, r.leaseS)
+					r.tr("restart with the range changed to [%s,%s], leaving stored leases outside -> %v", model.U32IP(ns), model.U32IP(ne), err)
+					if err != nil {
+						ctx.Count("range.restart_refused_lease_outside_new_range", 1)
+					} else {
+						ctx.Count("range.restart_accepted_lease_outside_new_range", 1)
+						for k, ip := range r.m.Bind {
+							if ip < ns || ip > ne {
+								delete(r.m.Bind, k)
+								delete(r.m.ByIP, ip)
+							}
+						}
+						r.m.Start, r.m.End, r.end, r.h = ns, ne, ne, h
+						r.s = newSrv4(r.chain(h), loIface())
+						newEnd = ne
+					}
+				}
+			}
 			switch r.rng.Intn(3) {
 			case 0: // widen the range (still contains all stored leases)
 				if uint64(newEnd)+2 <= 0xffffffff && r.rng.Intn(2) == 0 {
